@@ -400,10 +400,15 @@ func (g *Gen) valOpt(v ssa.Value) (x Val, ok bool) {
 
 func (g *Gen) loopHead(b *ssa.BasicBlock, li *loopInfo, st *State, rname string, phiMerged map[*ssa.Phi]string) {
 	invs := g.con.LoopInv[li.ord]
-	if len(invs) == 0 && len(g.con.LoopDecr[li.ord]) == 0 {
+	if len(invs) == 0 && len(g.con.LoopDecr[li.ord]) == 0 && !g.isPlainRangeLoop(li) {
 		panic(fmt.Errorf("loop %d (block %d, %s) has no invariant", li.ord, b.Index, g.posOf(firstPos(b))))
 	}
 	li.preSt = st.clone()
+	g.findRangeIndex(li)
+	if li.rangePhi != nil {
+		g.oblige(fmt.Sprintf("%s/loop%d-inv-entry#range", shortKey(g.key), li.ord), "inv-entry", nil, rname,
+			rangeInv(phiMerged[li.rangePhi], li.rangeN), "range index stays within -1 .. len-1 (synthesised)", firstPos(b))
+	}
 	// inv-entry
 	vars := g.loopEnv(li, st, phiMerged)
 	env := g.envFor(vars, st, g.old)
@@ -486,6 +491,9 @@ func (g *Gen) loopHead(b *ssa.BasicBlock, li *loopInfo, st *State, rname string,
 		phiVals[phi] = v.T
 	}
 	li.headSt = hs
+	if li.rangePhi != nil {
+		g.guardAssume(rname, rangeInv(phiVals[li.rangePhi], li.rangeN))
+	}
 	vars2 := g.loopEnv(li, hs, phiVals)
 	env2 := g.envFor(vars2, hs, g.old)
 	for i, c := range invs {
@@ -920,6 +928,10 @@ func (g *Gen) backEdge(b *ssa.BasicBlock, succIdx int, h *ssa.BasicBlock, st *St
 	}
 	vars := g.loopEnv(li, st, phiVals)
 	env := g.envFor(vars, st, g.old)
+	if li.rangePhi != nil {
+		g.oblige(fmt.Sprintf("%s/loop%d-inv-preserved#range@b%d", shortKey(g.key), li.ord, b.Index), "inv-preserved", nil, guard,
+			rangeInv(phiVals[li.rangePhi], li.rangeN), "range index stays within -1 .. len-1 (synthesised)", firstPos(h))
+	}
 	for i, c := range g.con.LoopInv[li.ord] {
 		t := g.mustClause(env, c.E, fmt.Sprintf("loop %d invariant#%d", li.ord, i))
 		g.oblige(fmt.Sprintf("%s/loop%d-inv-preserved#%d@b%d", shortKey(g.key), li.ord, i, b.Index), "inv-preserved", c.Tags, guard, t, c.Src, firstPos(h))
@@ -1233,4 +1245,40 @@ func substSym(t, sym, repl string) string {
 		i = j
 	}
 	return sb.String()
+}
+
+func rangeInv(pv, n string) string {
+	return "(and (<= (- 1) " + pv + ") (< " + pv + " (imax " + n + " 0)))"
+}
+
+// findRangeIndex recognises the SSA shape of `for i := range slice`: a phi commented
+// "rangeindex" starting at -1, incremented at the head and compared with a length defined
+// outside the loop.
+func (g *Gen) findRangeIndex(li *loopInfo) {
+	for _, phi := range li.phis {
+		if phi.Comment != "rangeindex" {
+			continue
+		}
+		for _, ins := range li.head.Instrs {
+			cmp, ok := ins.(*ssa.BinOp)
+			if !ok || cmp.Op != token.LSS {
+				continue
+			}
+			inc, ok := cmp.X.(*ssa.BinOp)
+			if !ok || inc.Op != token.ADD || inc.X != ssa.Value(phi) {
+				continue
+			}
+			if g.definedOutside(li, cmp.Y) {
+				if nv, ok := g.valOpt(cmp.Y); ok {
+					li.rangePhi, li.rangeN = phi, nv.T
+					return
+				}
+			}
+		}
+	}
+}
+
+func (g *Gen) isPlainRangeLoop(li *loopInfo) bool {
+	g.findRangeIndex(li)
+	return li.rangePhi != nil
 }
